@@ -9,6 +9,7 @@ import (
 	"fmt"
 	"slices"
 	"sort"
+	"strings"
 	"testing"
 	"testing/synctest"
 
@@ -221,7 +222,25 @@ func perform(ctx context.Context, h handle, row Row, k vh.Key) error {
 	panic("unknown op " + row.Op)
 }
 
-func runGroup(t *testing.T, tr *vh.Trace, tid string, rows []Row, cached bool) {
+func inputsOfRow(d Row) []controller.Input {
+	var ins []controller.Input
+
+	for _, i := range d.Ins {
+		in := controller.Input{Namespace: ns, Type: typeOf[i.Typ], Kind: inKind[i.Kind]}
+		if i.ID != "-" {
+			in.ID = optional.Some(i.ID)
+		}
+
+		ins = append(ins, in)
+	}
+
+	return ins
+}
+
+// runGroup executes the rows of one declaration through one controller handle. next (reduced-runtime flavour only): afterwards
+// the SAME controller re-declares its inputs (UpdateInputs) to the declaration of next and executes those rows: what a controller
+// may access is a function of its current declaration only, never of what it was allowed to do before.
+func runGroup(t *testing.T, tr *vh.Trace, tid string, rows []Row, cached bool, next []Row) {
 	synctest.Test(t, func(t *testing.T) {
 		ctx, cancel := context.WithCancel(context.Background())
 		st := state.WrapCore(namespaced.NewState(inmem.Build))
@@ -295,28 +314,43 @@ func runGroup(t *testing.T, tr *vh.Trace, tid string, rows []Row, cached bool) {
 
 		h := <-hch
 
-		for _, row := range rows {
-			k := vh.Key{NS: ns, Typ: typeOf[row.Typ], ID: row.ID}
+		exec := func(rows []Row, tid string) {
+			for _, row := range rows {
+				k := vh.Key{NS: ns, Typ: typeOf[row.Typ], ID: row.ID}
 
-			seed(ctx, t, st, k, row.Ex)
-			synctest.Wait()
+				seed(ctx, t, st, k, row.Ex)
+				synctest.Wait()
 
-			opErr := perform(ctx, h, row, k)
+				opErr := perform(ctx, h, row, k)
 
-			synctest.Wait()
+				synctest.Wait()
 
-			var after resource.Resource
-			if cur, gerr := st.Get(ctx, k.Pointer()); gerr == nil {
-				after = cur
+				var after resource.Resource
+				if cur, gerr := st.Get(ctx, k.Pointer()); gerr == nil {
+					after = cur
+				}
+
+				line := Line{Ev: "row", Tid: tid, Cached: cached, Row: row, Cls: vh.Class(opErr), After: valueOf(after)}
+				if opErr != nil {
+					line.Err = opErr.Error()
+				}
+
+				sort.Strings(line.After.Fins)
+				tr.Emit(line)
+			}
+		}
+
+		exec(rows, tid)
+
+		if next != nil {
+			if uerr := h.(interface {
+				UpdateInputs([]controller.Input) error
+			}).UpdateInputs(inputsOfRow(next[0])); uerr != nil {
+				t.Fatalf("UpdateInputs %v -> %v: %v", d.Ins, next[0].Ins, uerr)
 			}
 
-			line := Line{Ev: "row", Tid: tid, Cached: cached, Row: row, Cls: vh.Class(opErr), After: valueOf(after)}
-			if opErr != nil {
-				line.Err = opErr.Error()
-			}
-
-			sort.Strings(line.After.Fins)
-			tr.Emit(line)
+			synctest.Wait()
+			exec(next, tid+"-redeclared")
 		}
 
 		cancel()
@@ -353,7 +387,25 @@ func TestAccess(t *testing.T) {
 
 	for gi, k := range order {
 		for _, cached := range []bool{false, true} {
-			runGroup(t, tr, fmt.Sprintf("g%d-%v", gi, cached), groups[k], cached)
+			runGroup(t, tr, fmt.Sprintf("g%d-%v", gi, cached), groups[k], cached, nil)
 		}
+	}
+
+	// chained declarations: reduced-runtime controllers whose outputs agree, each re-declaring its inputs to the next one's
+	var rkeys []string
+
+	for _, k := range order {
+		if groups[k][0].Fl == "r" {
+			rkeys = append(rkeys, k)
+		}
+	}
+
+	for i := range rkeys {
+		a, b := groups[rkeys[i]], groups[rkeys[(i+1)%len(rkeys)]]
+		if len(rkeys) < 2 || strings.Join(a[0].Outs, ",") != strings.Join(b[0].Outs, ",") {
+			continue
+		}
+
+		runGroup(t, tr, fmt.Sprintf("chain%d", i), a, i%2 == 1, b)
 	}
 }
